@@ -442,11 +442,24 @@ func genStore(c *ctx, out string) {
 	}
 	cres["fallthrough"] = c.stStatusRet(final)
 	eb := b[3].(*ast.IfStmt)
-	if eb.Else != nil || len(eb.Body.List) != 3 || stStmtStr(eb.Body.List[0]) != "repositoryEntry.entryLock.RLock()" ||
-		stStmtStr(eb.Body.List[1]) != "defer repositoryEntry.entryLock.RUnlock()" || stStmtStr(eb.Body.List[2]) != "if repositoryEntry.Loaded" {
+	if eb.Else != nil || len(eb.Body.List) < 3 || stStmtStr(eb.Body.List[0]) != "repositoryEntry.entryLock.RLock()" ||
+		stStmtStr(eb.Body.List[1]) != "defer repositoryEntry.entryLock.RUnlock()" {
 		fail("%s: Repository.checkCrl: unexpected body of `if repositoryEntry != nil`", c.pos(eb))
 	}
-	lb := eb.Body.List[2].(*ast.IfStmt)
+	rest := eb.Body.List[2:]
+	cres["closed"] = "skip" // no test of the Closed flag
+	if len(rest) == 2 && stStmtStr(rest[0]) == "if repositoryEntry.Closed" {
+		ci := rest[0].(*ast.IfStmt)
+		if ci.Else != nil || ci.Init != nil {
+			fail("%s: unexpected else/init", c.pos(ci))
+		}
+		cres["closed"] = c.stStatusRet(c.stSingleReturn(ci.Body))
+		rest = rest[1:]
+	}
+	if len(rest) != 1 || stStmtStr(rest[0]) != "if repositoryEntry.Loaded" {
+		fail("%s: Repository.checkCrl: unexpected body of `if repositoryEntry != nil`", c.pos(eb))
+	}
+	lb := rest[0].(*ast.IfStmt)
 	if lb.Else != nil {
 		fail("%s: unexpected else", c.pos(lb))
 	}
@@ -489,7 +502,7 @@ func genStore(c *ctx, out string) {
 		fail("%s: Repository.checkCrl: revoked status is not passed on / fall-through is not 'not revoked'", c.pos(fd))
 	}
 	l.p("/-- Outcome classes of Repository.checkCrl per condition. -/")
-	l.p("inductive CRet | notRevoked | passStatus | error | panic")
+	l.p("inductive CRet | notRevoked | passStatus | error | panic | skip")
 	l.p("  deriving DecidableEq, Repr")
 	cret := func(k string) string {
 		switch k {
@@ -501,16 +514,47 @@ func genStore(c *ctx, out string) {
 			return "CRet.passStatus"
 		case "panic":
 			return "CRet.panic"
+		case "skip":
+			return "CRet.skip"
 		}
 		return "unknownCRet_" + k
 	}
 	l.p("/-- %s Repository.checkCrl: entry absent or not loaded falls through to 'not revoked'; otherwise: -/", c.pos(fd))
+	l.p("def checkOnClosed : CRet := %s  -- `skip`: the Closed flag is not examined", cret(cres["closed"]))
 	l.p("def checkOnStoreNil : CRet := %s", cret(cres["storeNil"]))
 	l.p("def checkOnLookupErr : CRet := %s", cret(cres["lookupErr"]))
 	l.p("def checkOnRevoked : CRet := %s", cret(cres["revoked"]))
 	l.p("def checkFallthrough : CRet := %s", cret(cres["fallthrough"]))
 	l.p("")
 	facts["checkCrl"] = cres
+
+	fd = c.funcDecl(rp, "Repository", "closeRepositoryEntry")
+	var cl []string
+	for _, st := range fd.Body.List {
+		cl = append(cl, stStmtStr(st))
+	}
+	shape := strings.Join(cl, " ; ")
+	closeFacts := map[string]bool{}
+	switch shape {
+	case "entry.entryLock.Lock() ; defer entry.entryLock.Unlock() ; if entry.Closed ; if entry.CRLStore!=nil ; entry.Closed=true":
+		i1, i2 := fd.Body.List[2].(*ast.IfStmt), fd.Body.List[3].(*ast.IfStmt)
+		if i1.Else != nil || len(i1.Body.List) != 1 || stStmtStr(i1.Body.List[0]) != "return " ||
+			i2.Else != nil || len(i2.Body.List) != 1 || stStmtStr(i2.Body.List[0]) != "entry.CRLStore.Close()" {
+			fail("%s: Repository.closeRepositoryEntry: unexpected branch bodies", c.pos(fd))
+		}
+		closeFacts["marksClosed"], closeFacts["dropsEntry"], closeFacts["nilStoreGuard"], closeFacts["idempotent"] = true, false, true, true
+	case "entry.entryLock.Lock() ; defer entry.entryLock.Unlock() ; entry.CRLStore.Close() ; R.crlRepository[id]=nil":
+		closeFacts["marksClosed"], closeFacts["dropsEntry"], closeFacts["nilStoreGuard"], closeFacts["idempotent"] = false, true, false, false
+	default:
+		fail("%s: Repository.closeRepositoryEntry has an unrecognised shape: %s", c.pos(fd), shape)
+	}
+	l.p("/-- %s Repository.closeRepositoryEntry (per entry, under the entry lock) -/", c.pos(fd))
+	l.p("def closeMarksClosed : Bool := %v", closeFacts["marksClosed"])
+	l.p("def closeDropsEntry : Bool := %v   -- sets the map slot to nil", closeFacts["dropsEntry"])
+	l.p("def closeNilStoreGuard : Bool := %v", closeFacts["nilStoreGuard"])
+	l.p("def closeIdempotent : Bool := %v   -- returns early when already closed", closeFacts["idempotent"])
+	l.p("")
+	facts["closeRepositoryEntry"] = closeFacts
 
 	fd = c.funcDecl(rp, "Repository", "IsRevoked")
 	n := len(fd.Body.List)
